@@ -11428,9 +11428,10 @@ class Use_Stmt(StmtBase):  # pylint: disable=invalid-name
                                 only_list.append(
                                     (child.children[1].string, child.children[2].string)
                                 )
-                        elif isinstance(child, Generic_Spec):
+                        elif isinstance(child, (Generic_Spec, Dtio_Generic_Spec)):
                             # For now we ignore anything other than symbol names
-                            # and this includes operators (TODO #379).
+                            # and this includes operators (TODO #379) and
+                            # defined I/O (a dtio-generic-spec is a generic-spec).
                             pass
                         else:
                             raise InternalError(
